@@ -73,6 +73,10 @@ def run(outcome, tier, seed):
                     continue
                 for mode in ("closed", "devfull"):
                     cases.append(cli.Case(["-t", to] + names, stdin, mode))
+        # help and version text go the same way as data: a consumer that is gone must not produce an error message
+        for argv in (["--help"], ["-h"], ["-V"], ["--version"], ["-tj", "--help"]):
+            for mode in ("closed", "devfull"):
+                cases.append(cli.Case(argv, None, mode))
         results = cli.predict_and_run(common.XT_DEBUG, fx.dir, cases)
         hist = {}
         for r in results:
